@@ -204,7 +204,12 @@ def convert_archive(archive):
     # first rewrite affected syms.
     raw_syms = t.links()
     syms = contents.contentsSet(raw_syms)
-    while True:
+    # each pass relocates the symlinks recorded below one symlink.  Without a
+    # symlink cycle a symlink is carried through every other symlink at most
+    # once, so len**2 passes (plus slack) settle them; a symlink pointing below
+    # itself would otherwise be followed forever.
+    nsyms = len(syms)
+    for _ in range(nsyms * nsyms + nsyms + 2):
         for x in sorted(syms):
             affected = syms.child_nodes(x.location)
             if not affected:
@@ -215,6 +220,12 @@ def convert_archive(archive):
             break
         else:
             break
+    else:
+        raise AssertionError(
+            "Tarfile holds symlinks recorded below a symlink cycle; their locations "
+            "can't be resolved (symlink loop).  This means either a bug in pkgcore, "
+            "or a malformed tarball."
+        )
 
     t.difference_update(raw_syms)
     t.update(syms)
